@@ -377,8 +377,12 @@ func NewGraph(metaData *MetaData, build *BuildDirective, varPool *VarPool) (*Gra
 		}
 	}
 
-	// Second pass: Expand struct providers into synthetic field accessor providers
-	for _, structProvider := range structProviders {
+	// Second pass: Expand struct providers into synthetic field accessor providers.
+	// The source of a struct may be a field of another expanded struct that is listed later, so
+	// providers without a source yet are retried after the others.
+	for len(structProviders) > 0 {
+		structProvider := structProviders[0]
+		structProviders = structProviders[1:]
 		if structProvider.StructType == nil {
 			return nil, fmt.Errorf("struct provider has nil StructType")
 		}
@@ -386,6 +390,19 @@ func NewGraph(metaData *MetaData, build *BuildDirective, varPool *VarPool) (*Gra
 		// Find the provider that provides this struct type
 		structTypeKey := typeKeys.key(structProvider.StructType)
 		if _, ok := fnProviderMap[structTypeKey]; !ok {
+			deferred := false
+			for _, other := range structProviders {
+				if other.StructType != nil {
+					if _, ok := fnProviderMap[typeKeys.key(other.StructType)]; ok {
+						deferred = true
+						break
+					}
+				}
+			}
+			if deferred {
+				structProviders = append(structProviders, structProvider)
+				continue
+			}
 			return nil, fmt.Errorf("no provider for struct type %s", structTypeKey)
 		}
 
